@@ -102,12 +102,17 @@ TRun ==
               j    == IF skip THEN rep + m * per ELSE IF fill THEN e.n
                       ELSE IF rep + step < e.n THEN rep + step ELSE e.n
               new  == k1..k2
+              \* the keys there may be exactly the integers right below the new ones: then the domain
+              \* is written as an interval (the same set; TLC indexes such functions directly, while a
+              \* look-up in a function over an enumerated set is a search)
+              lowD == k1 - Len(order)
+              dom  == IF Len(order) = 0 \/ DOMAIN val = lowD..(k1 - 1) THEN lowD..k2 ELSE DOMAIN val \cup new
               t    == IF skip THEN [FSt EXCEPT !.evict = evict + m * (s1.evict - evict)]
                       ELSE IF fill
                       THEN [FSt EXCEPT !.order = [i \in 1..left |-> k2 + 1 - i] \o order,
-                                       !.val = [x \in DOMAIN val \cup new |->
-                                                  IF x \in new THEN e.a.v + e.dv * (x - e.a.k - e.ko) ELSE val[x]],
-                                       !.sz = [x \in DOMAIN sz \cup new |-> IF x \in new THEN ch ELSE sz[x]],
+                                       !.val = [x \in dom |->
+                                                  IF x >= k1 THEN e.a.v + e.dv * (x - e.a.k - e.ko) ELSE val[x]],
+                                       !.sz = [x \in dom |-> IF x >= k1 THEN ch ELSE sz[x]],
                                        !.size = size + left * ch]
                       ELSE FRun(FSt, e, rep, j)
           IN /\ order' = t.order /\ val' = t.val /\ sz' = t.sz /\ size' = t.size /\ evict' = t.evict
